@@ -147,19 +147,39 @@ func checkC02(c *core.Ctx, r *core.Report) {
 			}
 		}
 	}
-	for _, name := range []string{"fopOnString", "fopOnBool"} {
-		fn := c.Fn(pkgWriter, name)
-		d := funcDeclOf(fn)
-		arms := core.SwitchArms(info, d.Body, isFop)
-		ok := false
-		for _, a := range arms {
-			if _, e := a["Equals"]; e {
-				if _, n := a["NotEquals"]; n {
-					ok = true
+	// every switch on the filter operator in the writer package that handles Equals also handles NotEquals
+	// (today: fopOnString, fopOnBool, the absent-column arms of filterOpOnDataType and the six-operator
+	// switches of compareNumberDte) — wherever the switch lives, so inlining fopOnBool into its caller or
+	// extracting an arm into a helper does not change the verdict
+	{
+		nEq := 0
+		wp := c.Pkg(pkgWriter)
+		for _, f := range wp.Syntax {
+			if strings.HasSuffix(c.Fset.Position(f.Pos()).Filename, "_test.go") {
+				continue
+			}
+			for _, d := range f.Decls {
+				fd, ok := d.(*ast.FuncDecl)
+				if !ok || fd.Body == nil {
+					continue
+				}
+				k := 0
+				for _, a := range core.SwitchArms(wp.TypesInfo, fd.Body, isFop) {
+					if _, e := a["Equals"]; !e {
+						continue
+					}
+					k++
+					nEq++
+					_, n := a["NotEquals"]
+					key := fmt.Sprintf("writer.%s:Equals+NotEquals", fd.Name.Name)
+					if k > 1 {
+						key = fmt.Sprintf("writer.%s:switch#%d:Equals+NotEquals", fd.Name.Name, k)
+					}
+					r.Check(n, "EXHAUST", key, c.Pos(fd.Pos()), "both operators handled", "Equals is handled but NotEquals is not for this value kind")
 				}
 			}
 		}
-		r.Check(ok, "EXHAUST", "writer."+name+":Equals+NotEquals", c.Pos(fn.Pos()), "both operators handled", "Equals or NotEquals is not handled for this value kind")
+		r.Floor("EXHAUST", "operator switches with an Equals arm in the writer package", nEq, 5)
 	}
 
 	// ---------------------------------------------------------------- (3) time ranges
@@ -530,26 +550,51 @@ func checkWidening(c *core.Ctx, r *core.Report) {
 		r.Undecided("TAGUNION", name+":compares-through-compareNumberDte", c.Pos(call.Pos()), "the compared enclosures are not the function's parameters")
 		return
 	}
-	// the region where the literal is a float and the stored value is not
-	var region []*ssa.BasicBlock
-	for _, b := range fn.DomPreorder() {
-		qe, _ := dtypeKnowledge(b, q, tagF)
-		_, rn := dtypeKnowledge(b, rec, tagF)
-		if qe[kFloat] && rn[kFloat] {
-			region = append(region, b)
+	// the region where the literal is a float and the stored value is not: in fopOnNumber before the call, or
+	// at the head of compareNumberDte before it dispatches on the value's tag (the guard moved into the callee)
+	regionOf := func(h *ssa.Function, rec, q *ssa.Parameter) []*ssa.BasicBlock {
+		var region []*ssa.BasicBlock
+		for _, b := range h.DomPreorder() {
+			qe, _ := dtypeKnowledge(b, q, tagF)
+			_, rn := dtypeKnowledge(b, rec, tagF)
+			if qe[kFloat] && rn[kFloat] {
+				region = append(region, b)
+			}
+		}
+		return region
+	}
+	host := fn
+	region := regionOf(fn, rec, q)
+	inRegion := map[*ssa.BasicBlock]bool{}
+	isEndpoint := func(x ssa.Instruction) bool { return x == ssa.Instruction(call) }
+	if len(region) == 0 {
+		if callee := call.Call.StaticCallee(); callee != nil && len(callee.Params) >= 2 {
+			if rg := regionOf(callee, callee.Params[0], callee.Params[1]); len(rg) > 0 {
+				host, region = callee, rg
+				var hrec ssa.Value = callee.Params[0]
+				rec, q = callee.Params[0], callee.Params[1]
+				// the endpoint is the dispatch: a read of the value's tag outside the region
+				isEndpoint = func(x ssa.Instruction) bool {
+					ld, ok := x.(*ssa.UnOp)
+					if !ok || ld.Op != token.MUL || inRegion[x.Block()] {
+						return false
+					}
+					fa, ok := ld.X.(*ssa.FieldAddr)
+					return ok && core.FieldOfAddr(fa) == tagF && fa.X == hrec
+				}
+			}
 		}
 	}
 	if len(region) == 0 {
 		r.Violation("TAGUNION", name+":integer-value-widened-for-a-float-literal", c.Pos(call.Pos()), "no code handles `literal is a float and the stored value is not`: compareNumberDte then compares the stored integer with the literal's truncated integer view, so latency=8.5 matches 8 and latency<8.5 misses it")
 		return
 	}
-	inRegion := map[*ssa.BasicBlock]bool{}
 	for _, b := range region {
 		inRegion[b] = true
 	}
 	// (i) the value's type becomes float before the comparison
 	leak := false
-	core.WalkForward(fn, region[0].Instrs[0], func(x ssa.Instruction) bool {
+	core.WalkForward(host, region[0].Instrs[0], func(x ssa.Instruction) bool {
 		if st, ok := x.(*ssa.Store); ok {
 			if fa, ok := st.Addr.(*ssa.FieldAddr); ok && core.FieldOfAddr(fa) == tagF && fa.X == ssa.Value(rec) {
 				if k, ok := core.ConstIntValue(st.Val); ok && k == kFloat {
@@ -557,7 +602,7 @@ func checkWidening(c *core.Ctx, r *core.Report) {
 				}
 			}
 		}
-		if x == ssa.Instruction(call) {
+		if isEndpoint(x) {
 			leak = true
 		}
 		return true
